@@ -31,6 +31,8 @@ int    g_nfunc, g_ngrad, g_nproj;
 #define TSG_LOG 8
 double g_fret[TSG_LOG]; double g_gout[TSG_LOG][TSG_NDIM]; double g_pout[TSG_LOG][TSG_NDIM];
 
+/* rule R13 (used by the quick jobs): the descent test lhs > rhs + tol as an uninterpreted predicate: any outcome */
+bool tsg_descent_fails(double lhs, double rhs){ return nondet_bool(); }
 double cb_func(const double *x, size_t n){
   __CPROVER_assert(n == g_dims, "F17 objective sees num_dimensions entries");
   double r = nondet_double();
